@@ -346,6 +346,12 @@ func GenLin(t *rapid.T) LinCase {
 	c.Prefix = rapid.SliceOfN(small(opGen(fill, pool, profile, sizeRef, 6), false), 0, 6).Draw(t, "prefix")
 	prog := rapid.SliceOfN(small(opGen(kinds, pool, profile, sizeRef, 6), true), 3, 6)
 	c.Progs = rapid.SliceOfN(prog, 2, 4).Draw(t, "progs")
+	if c.Impl == implTiny || c.Impl == implWTiny {
+		sprinkleNil(t, c.Prefix)
+		for i := range c.Progs {
+			sprinkleNil(t, c.Progs[i])
+		}
+	}
 	return c
 }
 
